@@ -16,11 +16,32 @@ def _ann_is_set(ann: ast.AST | None) -> bool:
     return t in ("set", "frozenset") or t.startswith(("set[", "Set[", "frozenset[")) or t.endswith("| set") or " set[" in t and "dict" not in t.split("set[")[0][-6:]
 
 
+def _ann_is_dict_of_set(ann: ast.AST | None) -> bool:
+    if ann is None:
+        return False
+    t = norm(ann)
+    if not (t.startswith("dict[") or t.startswith("Dict[") or t.startswith("defaultdict[") or t.startswith("Mapping[")):
+        return False
+    inner = t[t.index("[") + 1:]
+    # value type = text after the first top-level comma
+    depth = 0
+    for i, ch in enumerate(inner):
+        if ch == "[":
+            depth += 1
+        elif ch == "]":
+            depth -= 1
+        elif ch == "," and depth == 0:
+            val = inner[i + 1:].strip()
+            return val.startswith(("set", "Set", "frozenset"))
+    return False
+
+
 class SetTypes:
     def __init__(self, repo: Repo) -> None:
         self.repo = repo
         self.attr_sets: set[tuple[str, str]] = set()  # (class, attr)
         self.any_attr_sets: set[str] = set()  # attr names that are sets in some class (used when receiver class unknown)
+        self.attr_dict_sets: set[tuple[str, str]] = set()  # (class, attr) holding dict[..., set[...]]
         for c in repo.all_classes():
             for st in c.node.body:
                 if isinstance(st, ast.AnnAssign) and isinstance(st.target, ast.Name) and _ann_is_set(st.annotation):
@@ -39,6 +60,8 @@ class SetTypes:
                     if isinstance(t, ast.Attribute) and isinstance(t.value, ast.Name) and t.value.id == "self":
                         if _ann_is_set(ann) or (v is not None and self._expr_is_set_literal(v)):
                             self.attr_sets.add((c.name, t.attr))
+                        if _ann_is_dict_of_set(ann):
+                            self.attr_dict_sets.add((c.name, t.attr))
         # module-level constants
         self.module_sets: set[str] = set()
         for m in repo.modules.values():
@@ -60,11 +83,15 @@ class SetTypes:
         return False
 
     def local_sets(self, f: Func) -> set[str]:
+        """Local names holding a set, plus (prefixed `dict:`) names holding a dict of sets and (prefixed `unordered:`) local dicts/lists
+        whose insertion order comes from an unsorted iteration over a set."""
         names: set[str] = set()
         a = f.node.args
         for p in a.posonlyargs + a.args + a.kwonlyargs:
             if _ann_is_set(p.annotation):
                 names.add(p.arg)
+            if _ann_is_dict_of_set(p.annotation):
+                names.add("dict:" + p.arg)
         for _ in range(3):
             for n in walk_local(f.node):
                 t = v = ann = None
@@ -75,13 +102,43 @@ class SetTypes:
                 if isinstance(t, ast.Name):
                     if _ann_is_set(ann) or (v is not None and self.is_set(f, v, names)):
                         names.add(t.id)
+                    if _ann_is_dict_of_set(ann):
+                        names.add("dict:" + t.id)
+                # elements of a dict of sets
+                if isinstance(n, (ast.For, ast.comprehension)) and isinstance(n.iter, ast.Call) and isinstance(n.iter.func, ast.Attribute) and self._is_dict_of_set(f, n.iter.func.value, names):
+                    if n.iter.func.attr == "items" and isinstance(n.target, ast.Tuple) and len(n.target.elts) == 2 and isinstance(n.target.elts[1], ast.Name):
+                        names.add(n.target.elts[1].id)
+                    if n.iter.func.attr == "values" and isinstance(n.target, ast.Name):
+                        names.add(n.target.id)
+                # insertion order taken from an unsorted set iteration
+                if isinstance(n, ast.For) and self.is_set(f, n.iter, names):
+                    for x in ast.walk(n):
+                        if isinstance(x, ast.Subscript) and isinstance(x.ctx, ast.Store) and isinstance(x.value, ast.Name):
+                            names.add("unordered:" + x.value.id)
+                        if isinstance(x, ast.Call) and isinstance(x.func, ast.Attribute) and x.func.attr in ("append", "setdefault", "extend", "insert") and isinstance(x.func.value, ast.Name):
+                            names.add("unordered:" + x.func.value.id)
         return names
+
+    def _is_dict_of_set(self, f: Func, e: ast.AST, local: set[str]) -> bool:
+        if isinstance(e, ast.Name):
+            return "dict:" + e.id in local
+        if isinstance(e, ast.Attribute):
+            ch = chain(e)
+            if ch and ch[0] == "self" and len(ch) == 2 and f.cls:
+                return any((k.name, ch[1]) in self.attr_dict_sets for k in self.repo.mro(f.cls))
+        return False
 
     def is_set(self, f: Func, e: ast.AST, local: set[str]) -> bool:
         if self._expr_is_set_literal(e):
             return True
         if isinstance(e, ast.Name):
-            return e.id in local or (e.id in self.module_sets and e.id not in f.params)
+            return e.id in local or "unordered:" + e.id in local or (e.id in self.module_sets and e.id not in f.params)
+        if isinstance(e, ast.Subscript) and self._is_dict_of_set(f, e.value, local):
+            return True
+        if isinstance(e, ast.Call) and isinstance(e.func, ast.Attribute) and e.func.attr == "get" and self._is_dict_of_set(f, e.func.value, local):
+            return True
+        if isinstance(e, ast.Call) and isinstance(e.func, ast.Attribute) and e.func.attr in ("keys", "items", "values") and isinstance(e.func.value, ast.Name) and "unordered:" + e.func.value.id in local:
+            return True
         if isinstance(e, ast.Attribute):
             ch = chain(e)
             if ch and ch[0] == "self" and len(ch) == 2 and f.cls:
